@@ -182,6 +182,79 @@ pub mod balance {
         }
     }
 
+    /// The execution state a nested evaluation (macro call, block rendering)
+    /// has to leave as it found it, whether it succeeds or fails.
+    #[derive(Debug, Clone, PartialEq, Eq)]
+    pub struct ExecSnapshot {
+        /// Number of frames on the context stack.
+        pub frames: usize,
+        /// `Context::depth()` (frames plus the depth of outer contexts).
+        pub depth: usize,
+        /// Identity of the active instructions.
+        pub instructions: usize,
+        /// Name of the active instructions.
+        pub name: String,
+        /// The auto-escape mode.
+        pub auto_escape: AutoEscape,
+        /// The current block.
+        pub current_block: Option<String>,
+        /// Number of entries in the block table.
+        pub blocks: usize,
+        /// Sum of the lengths and cursors of the block stacks.
+        pub block_stacks: usize,
+        /// Number of templates loaded through extends.
+        pub loaded_templates: usize,
+    }
+
+    /// A nested evaluation that did not restore the execution state.
+    #[derive(Debug, Clone)]
+    pub struct NestedMismatch {
+        /// Which entry point (`macro`, `render_block`).
+        pub kind: &'static str,
+        /// Did the nested evaluation succeed?
+        pub ok: bool,
+        /// State before.
+        pub before: ExecSnapshot,
+        /// State after.
+        pub after: ExecSnapshot,
+    }
+
+    thread_local! {
+        static NESTED_MISMATCHES: RefCell<Vec<NestedMismatch>> = const { RefCell::new(Vec::new()) };
+        static NESTED: Cell<(u64, u64)> = const { Cell::new((0, 0)) };
+    }
+
+    #[cfg_attr(
+        not(any(feature = "macros", feature = "multi_template")),
+        allow(dead_code)
+    )]
+    pub(crate) fn nested(kind: &'static str, ok: bool, before: ExecSnapshot, after: ExecSnapshot) {
+        NESTED.with(|x| {
+            let (a, b) = x.get();
+            x.set(if ok { (a + 1, b) } else { (a, b + 1) });
+        });
+        if before != after {
+            NESTED_MISMATCHES.with(|x| {
+                x.borrow_mut().push(NestedMismatch {
+                    kind,
+                    ok,
+                    before,
+                    after,
+                })
+            });
+        }
+    }
+
+    /// Returns and clears the nested-evaluation mismatches logged on this thread.
+    pub fn take_nested_mismatches() -> Vec<NestedMismatch> {
+        NESTED_MISMATCHES.with(|x| std::mem::take(&mut *x.borrow_mut()))
+    }
+
+    /// Returns and resets the (succeeded, failed) nested evaluation counters of this thread.
+    pub fn take_nested_counters() -> (u64, u64) {
+        NESTED.with(|x| x.replace((0, 0)))
+    }
+
     /// Returns and clears the mismatches logged on this thread.
     pub fn take_mismatches() -> Vec<Mismatch> {
         MISMATCHES.with(|x| std::mem::take(&mut *x.borrow_mut()))
